@@ -24,6 +24,11 @@ def gen_problem(rnd):
     m = {"under": max(1, n - 1) if n > 1 else 1, "over": n + rnd.randint(1, 2), "exact": n}[shape]
     G = numpy.array([[dy(rnd, -2, 2) for _ in range(n)] for _ in range(m)])
     d = numpy.array([[dy(rnd)] for _ in range(m)])
+    ints = rnd.random() < 0.2
+    if ints:
+        # a design matrix and data of whole numbers, handed over with an integer dtype
+        G = numpy.array([[float(rnd.randint(-3, 3)) for _ in range(n)] for _ in range(m)])
+        d = numpy.array([[float(rnd.randint(-4, 4))] for _ in range(m)])
     ck = rnd.choice(["scalar", "scalar_np", "vector", "full"])
     if ck in ("scalar", "scalar_np"):
         v = float(pos(rnd))
@@ -36,7 +41,7 @@ def gen_problem(rnd):
         a = numpy.array([[dy(rnd, -1, 1) for _ in range(m)] for _ in range(m)])
         cov = a @ a.T + numpy.diag([pos(rnd) for _ in range(m)])
         W = numpy.linalg.inv(cov)
-    return {"shape": shape, "G": G, "d": d, "cov": cov, "ck": ck, "W": W, "n": n, "m": m}
+    return {"shape": shape, "G": G, "d": d, "cov": cov, "ck": ck, "W": W, "n": n, "m": m, "ints": ints}
 
 
 def build(pr, rnd, D):
@@ -47,16 +52,17 @@ def build(pr, rnd, D):
     pm = rnd.choice([True, False, None])
     dtype = rnd.choice([numpy.float32, numpy.float64])
     via = rnd.choice(["wrapper", "wrapper", "concrete"])
-    G = scipy.sparse.csr_matrix(pr["G"]) if sparse else pr["G"].copy()
+    Gsrc, dsrc = (pr["G"].astype(int), pr["d"].astype(int)) if pr.get("ints") else (pr["G"], pr["d"])
+    G = scipy.sparse.csr_matrix(Gsrc) if sparse else Gsrc.copy()
     cov = pr["cov"] if not isinstance(pr["cov"], numpy.ndarray) else pr["cov"].copy()
-    desc = f"{'sparse' if sparse else 'dense'} G {pr['m']}x{pr['n']} ({pr['shape']}), cov {pr['ck']}, premultiplication={pm}, dtype={numpy.dtype(dtype).name}, via {via}"
+    desc = f"{'sparse' if sparse else 'dense'} G {pr['m']}x{pr['n']} ({pr['shape']}), cov {pr['ck']}, premultiplication={pm}, dtype={numpy.dtype(dtype).name}, via {via}{', integer G and d' if pr.get('ints') else ''}"
     kw = {}
     if pm is not None or rnd.random() < 0.5:
         kw["premultiplication"] = pm
     with warnings.catch_warnings():
         warnings.simplefilter("ignore")
         if via == "wrapper":
-            obj = LM(G, pr["d"].copy(), cov, dtype=numpy.dtype(dtype), **kw)
+            obj = LM(G, dsrc.copy(), cov, dtype=numpy.dtype(dtype), **kw)
             dts = [numpy.dtype(v.dtype) for v in vars(obj.Distribution).values() if isinstance(v, numpy.ndarray) or scipy.sparse.issparse(v)]
             work = numpy.dtype(numpy.float32) if any(t == numpy.float32 for t in dts) else numpy.dtype(numpy.float64)
         else:
@@ -66,7 +72,7 @@ def build(pr, rnd, D):
             c2 = float(cov) if pr["ck"] in ("scalar", "scalar_np") else cov
             if sparse and full:
                 kw.pop("premultiplication", None)
-            obj = cls(G, pr["d"].copy(), c2, dtype=dtype, **kw)
+            obj = cls(G, dsrc.copy(), c2, dtype=dtype, **kw)
             work = numpy.dtype(dtype)
     return obj, desc, work, via
 
